@@ -5,6 +5,14 @@ import json, os, subprocess
 ROOT = os.path.dirname(os.path.dirname(os.path.abspath(__file__)))
 
 CLAIMED = {
+  "C39": dict(engine="E4 histsim", level="exploration", design="§4 C39, §1.2",
+      technique="deterministic single-actor history simulation: seeded fixture sequences with aborting elements at seeded positions vs. fold(validate_tx) on a clone",
+      text="Seeded sequences of Shelley-MA fixtures (payment, pool registration, delegation, MIR) under seeded environments and initial certificate states, with aborting elements (withheld UTxO, expired TTL, size limit, delegation before registration) at arbitrary positions; on Ok the caller's state must equal the in-order fold of validate_tx, on Err it must equal the state before the call.",
+      note="validate_tx is the trusted per-transaction reference. No environment nondeterminism."),
+  "C40": dict(engine="E4 histsim", level="exploration", design="§4 C40, §1.2",
+      technique="deterministic single-actor history simulation of staging operations (with serde restart) followed by build; record model vs. independent CBOR walker over the built bytes",
+      text="Histories of up to 30 staging operations over small pools (duplicates, removals, cancelling mints, redeemers for absent/late/removed targets, invalid network id) then build_conway_raw; every field the statement lists, the id (blake2b-256 of the located body bytes) and every redeemer pointer (position in the sorted duplicate-free target set) are compared with the model; building must not panic.",
+      note="Builds the builder refuses are not judged. One KNOWN-FINDING: todo!() for redeemers without ex-units."),
   "C12": dict(engine="E4 histsim", level="exploration", design="§4 C12, §1.2",
       technique="deterministic single-actor history simulation: seeded evolve/sign/verify/restart histories over all 14 KES types vs. period counter + independently derived public key",
       text="Every run walks one KES key from period 0 to exhaustion with seeded interleaving of sign+verify (must verify at the current period only: all other periods for depth <= 4, sampled ones for 5..7), byte round-trips, persist-and-reload restarts and period/public-key checks; update must fail exactly at the last period.",
@@ -71,7 +79,7 @@ CLAIMED = {
       note="Trusts blake2b/ed25519 of pallas-crypto (used on both sides) and the hand-written strict CBOR walker. Single actor; no scheduler/clock/transport."),
 }
 
-PENDING = {k: 'claimed in DESIGN.md; check under construction (not yet registered)' for k in 'C39 C40'.split()}  # id -> reason while a claimed check is still being built
+PENDING = {}  # id -> reason while a claimed check is still being built
 
 NA = {
  "C01": "Flat encoder/decoder are in-memory functions of a value sequence; bit alignment depends on the values written, not on any schedule, stream, clock or fault.",
